@@ -280,6 +280,36 @@ func TestCheck(t *testing.T) {
 	})
 	r.Exhaustive(fmt.Sprintf("order laws on all ordered pairs of the %d-element universe", n))
 
+	// Phase A3: pre-releases whose first identifiers share a stem of 0..40 characters (so that they agree in their first 4, 8, 16,
+	// 32 bytes) and differ in a short tail, with a further identifier behind that decides the other way: all ordered pairs per
+	// stem, among them pairs of equal byte length in which the shorter first identifier is a prefix of the longer one.
+	r.Phase("A3: order laws on all ordered pairs of pre-releases sharing a stem of 0..40 characters (letters / mixed) x 4 tails x 6 following identifiers", func() {
+		long := "nightly-2022-01-01-build-0a1b2c3d4e5f6g7h8i9j0k1l2m"
+		tails := []string{"", "s", "0", "-"}
+		next := []string{"", ".1", ".10", ".2", ".a", ".1.z"}
+		r.Parallel(41, 1, func(w *vkit.W, lo, hi int64) {
+			for k := lo; k < hi; k++ {
+				for _, stem := range []string{strings.Repeat("a", int(k)), long[:k], "x" + strings.Repeat("B", int(k))} {
+					var pres []string
+					for _, ta := range tails {
+						for _, na := range next {
+							if p := stem + ta + na; ref.ValidPreRelease(p) {
+								pres = append(pres, p)
+							}
+						}
+					}
+					for _, pa := range pres {
+						for _, pb := range pres {
+							c := Case{Kind: "pair", A: V{Major: 1, Minor: 2, Patch: 3, Pre: pa, Build: "b"}, B: V{Major: 1, Minor: 2, Patch: 3, Pre: pb}}
+							judge(c, w)
+							w.EvalRandom(vkit.Hash64("A3", pa, pb), ntPair(c))
+						}
+					}
+				}
+			}
+		})
+	})
+
 	// Phase A2: ComparePreRelease is a package setting. Under a replacement comparator the same laws must hold, in particular
 	// Latest and the string helpers must follow what Compare says (they must not bypass the setting).
 	r.Phase("A2: order laws and helper agreement under replaced ComparePreRelease settings (reversed, case-insensitive), then restored", func() {
